@@ -191,6 +191,35 @@ pub fn plan(prop: &str, tier: Tier) -> Option<Plan> {
                 v
             },
         ),
+        "C06" => (
+            "exploration",
+            "proptest-generated (constructor, length from a boundary-biased table 0..300, spare capacity 0..19, size_hint regime) over 14 moving constructors (From<Vec>, collect from vec::IntoIter / custom iterators with exact, lower<upper and (0,None) hints into Arc<[T]> and UniqueArc<[T]>, from_header_and_iter / from_header_and_vec, ThinArc::from_header_and_iter, into_thin, header erasure both ways, From<Box<T>>, new / From<T>, UniqueArc::new + into_inner) with identity-tracked elements and header (4 alignment combinations + a zero-sized element type), and over the Copy constructors (from_header_and_slice, ThinArc::from_header_and_slice, From<&[T]> for u8/u16/u32/u64/f32/padded tuples; From<&str>, From<String>, from_header_and_str with multi-byte UTF-8). Oracle: contents read back equal the input in order and number (identity, value, header, recorded length); every input Tok alive while the handle lives and destroyed exactly once when it is dropped; exactly one block survives the call (the source container's storage is released); nothing left afterwards; a zero-sized element type may be refused up front but never yields wrong counts. Non-trivial: >=2 resource-owning elements, or spare capacity, or an inexact size_hint.".into(),
+            vec!["element and header types are Tok witnesses".into()],
+            {
+                let mut v = vec![];
+                for fl in both {
+                    for (e, w) in eng::ctor::ctor_engines() {
+                        v.push(jobb(e, w * if q { 1500 } else { 40_000 }, fl));
+                    }
+                }
+                v
+            },
+        ),
+        "C07" => (
+            "fault_enumeration",
+            "(a) iterator-driven constructors (from_header_and_iter, ThinArc::from_header_and_iter, collect into Arc<[T]> / UniqueArc<[T]>, also through the exact-hint IteratorAsExactSizeIterator path) fed a scriptable iterator: a panic armed at the k-th callback (next / len / size_hint; k = 0..23, 0 = none), len()/size_hint() answers that are off by -2..+2 and change between successive questions; (b) Clone panicking inside make_mut / make_unique / unwrap_or_clone / OffsetArc::make_mut in shared and unique states; closures panicking inside ThinArc::with_arc / OffsetArc::with_arc / ArcBorrow::with_arc / with_raw_offset_arc / with_arc_mut (before / after replacing the Arc); PartialEq / PartialOrd / Hash / Debug of the payload panicking while Arc / ArcUnion / OffsetArc / ArcBorrow handles are compared, hashed or formatted; (c) allocation failure: child processes with the k-th allocation inside each of 12 constructor calls returning null (enumerated completely, k = 0..4). Oracle after catch_unwind: every value destroyed at most once, no destructor or read on a never-written slot (magic check), surviving handles valid with accurate counts, a returned handle holds exactly the items yielded, leaked values tolerated only inside the single half-built block of a constructor that panicked; children must end with SIGABRT and 'memory allocation of N bytes failed', never SIGSEGV, never survive a failed allocation. Non-trivial: the fault fired strictly inside the call, or a length lie with a non-zero offset, or a child that died through the allocation-error path.".into(),
+            vec!["k-th callback enumeration is sampled by proptest over k = 0..23 for up to 6 items (every k reachable); allocation-failure grid is complete".into()],
+            {
+                let mut v = vec![];
+                for fl in both {
+                    for (e, w) in eng::ctor::fault_engines() {
+                        v.push(jobb(e, w * if q { 3000 } else { 70_000 }, fl));
+                    }
+                    v.push(job(eng::ctor::AllocFailEngine, 0, fl));
+                }
+                v
+            },
+        ),
         _ => return None,
     };
     Some(Plan { property: prop.to_string(), level, rule, assumptions, jobs })
